@@ -138,6 +138,17 @@ func gen(transport string, maxLen int, big bool) func(t *rapid.T) Case {
 		for i := 0; i < nRes; i++ {
 			c.Res = append(c.Res, mg.Draw(t, "res"))
 		}
+		if c.Cfg.Codec == "proto" {
+			// with the binary codec, fields the receiver's schema does not know
+			// are content too (a message built from a newer schema, a forwarder)
+			for _, l := range [][]prog.Msg{c.Req, c.Res} {
+				for i := range l {
+					if rapid.IntRange(0, 5).Draw(t, "unknownField") == 0 {
+						l[i].Unk = rapid.SampledFrom([]int{1, 7, 300}).Draw(t, "unknownLen")
+					}
+				}
+			}
+		}
 		return c
 	}
 }
